@@ -35,7 +35,11 @@ func walkGuarded(fset *token.FileSet, stmts []ast.Stmt, guards []string, visit f
 			var walkIf func(i *ast.IfStmt, g []string)
 			walkIf = func(i *ast.IfStmt, g []string) {
 				c := exprStr(fset, i.Cond)
-				walkGuarded(fset, i.Body.List, append(append([]string{}, g...), c), visit)
+				pos := c // a disjunction is parenthesised, the guards of a statement are joined by &&
+				if be, ok := i.Cond.(*ast.BinaryExpr); ok && be.Op == token.LOR {
+					pos = "(" + c + ")"
+				}
+				walkGuarded(fset, i.Body.List, append(append([]string{}, g...), pos), visit)
 				switch e := i.Else.(type) {
 				case *ast.BlockStmt:
 					walkGuarded(fset, e.List, append(append([]string{}, g...), "!("+c+")"), visit)
